@@ -8,6 +8,7 @@ import ToastyVerif.Model.Select
 import ToastyVerif.Gen.Parity
 import ToastyVerif.Gen.Samplers
 import ToastyVerif.Model.Publish
+import ToastyVerif.Gen.Paths
 
 namespace Driver
 
@@ -285,6 +286,32 @@ def handlePub (op : String) (a : List String) : String :=
       " ".intercalate (rs.foldl step (Pub.World.init, [])).2
   | _, _ => "bad-op"
 
+/-! ### tile paths and URL templates -/
+
+def handlePath (op : String) (a : List String) : String :=
+  match op, a with
+  | "dec", [n] => match n.toNat? with
+      | some n => String.ofList (PathModel.dec n)
+      | none => "bad-op"
+  | "render", [scheme, n, x, y, ext] =>
+      match n.toNat?, x.toNat?, y.toNat? with
+      | some n, some x, some y =>
+        let segs? := if scheme = "LsYsYX" then some Gen.Paths.path_LsYsYX else if scheme = "LXY" then some Gen.Paths.path_LXY else none
+        match segs? with
+        | some segs => String.ofList (PathModel.render segs n x y ext.toList)
+        | none => "bad-op"
+      | _, _, _ => "bad-op"
+  | "expand", [n, x, y, tmpl] =>
+      match n.toNat?, x.toNat?, y.toNat? with
+      | some n, some x, some y => String.ofList (PathModel.expand n x y tmpl.toList)
+      | _, _, _ => "bad-op"
+  | "url", [scheme, ext] =>
+      let segs? := if scheme = "LsYsYX" then some Gen.Paths.url_LsYsYX else if scheme = "LXY" then some Gen.Paths.url_LXY else none
+      match segs? with
+      | some segs => String.ofList (PathModel.render segs 0 0 0 ext.toList)
+      | none => "bad-op"
+  | _, _ => "bad-op"
+
 def handle (toks : List String) : String :=
   match toks with
   | "gen" :: op :: args => match ints args with
@@ -298,6 +325,7 @@ def handle (toks : List String) : String :=
   | "parity" :: op :: args => handleParity op args
   | "sampler" :: variant :: args => handleSampler variant args
   | "pub" :: op :: args => handlePub op args
+  | "path" :: op :: args => handlePath op args
   | _ => "bad-op"
 
 end Driver
